@@ -1099,6 +1099,94 @@ def rule_l2(ctx):
         raise AnalysisBroken("only %d parked-aio fields with locked access sites" % n)
 
 
+def rule_t2(ctx):
+    from .. import guards as G
+    r = ctx.rule("C02.T2", "T3", "one-shot latches do not leak into the next operation: a boolean field of the aio that nni_aio_start consumes "
+                 "(tests, refuses to start, and clears) and that another function sets is also cleared by nni_aio_reset, which "
+                 "every provider calls when a new operation begins -- otherwise an abort that arrived after the previous "
+                 "operation had completed aborts (or falsely completes) the next one", floor=1)
+    prog = ctx.prog
+    start = prog.need("nni_aio_start", "core/aio.c")
+    reset = prog.need("nni_aio_reset", "core/aio.c")
+    latches = []
+    for bid, k, atom, val in G.edge_facts(start):
+        if not val or atom.get("k") != "mem" or (atom.get("t") or "") not in ("bool", "_Bool"):
+            continue
+        fld = atom.get("f")
+        tgt = start.blocks[bid].succs[k]
+        if tgt is None:
+            continue
+        seen = start.reach((tgt, 0))
+        clears = [t for t in start.assigns() if (t.b, t.i) in seen and t.node["lhs"].get("k") == "mem" and t.node["lhs"].get("f") == fld and
+                  const_of(start.expand(t.node["rhs"])) == 0 and G.dominated(start, (t.b, t.i), {bid: k})]
+        setters = [f.name for f in prog.fns_in("core/aio.c") if not f.cfg_failed and f is not start for t in f.assigns()
+                   if t.node["lhs"].get("k") == "mem" and t.node["lhs"].get("f") == fld and const_of(f.expand(t.node["rhs"])) not in (None, 0)]
+        if clears and setters and fld not in latches:
+            latches.append(fld)
+    if not latches:
+        raise AnalysisBroken("nni_aio_start consumes no one-shot latch any more (a_abort vanished)")
+    for fld in latches:
+        cl = [t for t in reset.assigns() if t.node["lhs"].get("k") == "mem" and t.node["lhs"].get("f") == fld and
+              const_of(reset.expand(t.node["rhs"])) == 0]
+        if cl and reset.dominated_by((reset.exit, 0), blocked=lambda b, i, e: (b, i) in {(t.b, t.i) for t in cl}):
+            r.ob(reset, "%s cleared when an operation begins" % fld)
+        else:
+            ctx.fail(r, reset, "%s not cleared by nni_aio_reset" % fld, reset.line,
+                     "nni_aio_start refuses to start when %s is set and clears it, and nni_aio_abort sets it on an aio that has "
+                     "no operation scheduled; nni_aio_reset no longer clears it, so a cancel that arrived after one operation "
+                     "finished is latched into the next operation, which is completed at once without running" % fld)
+
+
+def rule_a8(ctx):
+    from .. import guards as G
+    r = ctx.rule("C02.A8", "T6", "an aio picked up before the provider lock is dropped is stale when the lock is taken again: a function "
+                 "that unlocks, blocks and re-locks (the resolver workers around getaddrinfo) completes an aio only through a "
+                 "value it obtained after the re-lock -- in the meantime a cancel may have completed the aio and handed it back "
+                 "to its owner (double completion, use after free)", floor=2)
+    prog = ctx.prog
+    n = 0
+    for f in prog.functions:
+        if f.cfg_failed or f.file.endswith("_test.c"):
+            continue
+        unl = [c for c in f.calls("nni_mtx_unlock")]
+        lk = [c for c in f.calls("nni_mtx_lock")]
+        fins = [c for c in f.calls(FINISH)] if unl and lk else []
+        if not fins:
+            continue
+        for u in unl:
+            ukey = show(f.expand(u.node["args"][0])) if u.node["args"] else None
+            for l in lk:
+                if not l.node["args"] or show(f.expand(l.node["args"][0])) != ukey:
+                    continue
+                between = f.reach((u.b, u.i + 1), blocked=lambda b, i, e: (b, i) == (l.b, l.i))
+                if (l.b, l.i) not in f.reach((u.b, u.i + 1)) or not any(
+                        (c.b, c.i) in between and c.node.get("fn") not in ("nni_mtx_lock", "nni_mtx_unlock") for c in f.calls()):
+                    continue          # not a window: nothing runs between the unlock and the re-lock
+                for c in fins:
+                    a = f.expand(c.node["args"][0]) if c.node["args"] else None
+                    if a is None or a.get("k") != "var" or a.get("vk") != "local":
+                        continue
+                    defs = {p_ for p_, _ in G.var_defs(f, a["n"])}
+                    stop = lambda b, i, e: (b, i) in defs
+                    if (c.b, c.i) not in f.reach((l.b, l.i + 1), blocked=lambda b, i, e: (b, i) == (u.b, u.i)):
+                        continue          # not after this window
+                    n += 1
+                    # the finish is reached from the re-lock without a new value of the variable, and the value is one
+                    # that was assigned before the unlock
+                    stale = [p_ for p_ in defs if (u.b, u.i) in f.reach((p_[0], p_[1] + 1), blocked=stop)] \
+                        if (c.b, c.i) in f.reach((l.b, l.i + 1), blocked=stop) else []
+                    if stale:
+                        ctx.fail(r, f, "%s completed with a value from before the lock was dropped" % a["n"], c.line,
+                                 "%s assigns %s at line %s, releases %s at line %s (blocking work follows), re-acquires it at line %s "
+                                 "and completes %s at line %s without reading it again from its owning cell: a cancel in the "
+                                 "window completes the same aio, so it is completed twice (and may already be freed)"
+                                 % (f.name, a["n"], f.line_of(*stale[0]), ukey, u.line, l.line, a["n"], c.line))
+                    else:
+                        r.ob(f, "finish of %s line %s after the re-lock at line %s uses a value read after it" % (a["n"], c.line, l.line))
+    if n < 2:
+        raise AnalysisBroken("only %d completions after an unlock/re-lock window found" % n)
+
+
 def run(ctx):   # noqa: F811
     ctx.guard(rule_a1)
     ctx.guard(rule_a2)
@@ -1111,3 +1199,5 @@ def run(ctx):   # noqa: F811
     ctx.guard(rule_s3)
     ctx.guard(rule_t1)
     ctx.guard(rule_l2)
+    ctx.guard(rule_t2)
+    ctx.guard(rule_a8)
